@@ -5,7 +5,8 @@ import FluentProofs.ParserRuntime
 /-!
 # Serializer lemmas, part 19: the comments the parser produces are of the class (C04, "parser output is in the class")
 
-For a source without the byte 13: every comment of the tree returned by `parse` (stand-alone comments
+For a source in which every byte 13 is followed by a byte 10 (in particular: without the byte 13): every
+comment of the tree returned by `parse` (stand-alone comments
 of the three levels and the comments attached to messages and terms) is non-empty and none of its
 lines contains a line break (`rtComment`).
 -/
@@ -14,14 +15,26 @@ open FluentModel FluentModel.Syntax FluentModel.Syntax.Ser FluentProofs.Parser
 
 /-! ## one comment line -/
 
-/-- no line feed in the byte range -/
-def LineOK (s : Src) (sp : Span) : Prop := ∀ j, sp.start ≤ j → j < sp.stop → s[j]? ≠ some 10
+/-- no end-of-line position (`\n`, `\r\n`) in the byte range -/
+def LineOK (s : Src) (sp : Span) : Prop := ∀ j, sp.start ≤ j → j < sp.stop → isEol s j = false
+
+/-- every carriage return is followed by a line feed (`NoLoneCR` of `SerializerOutCr1`, stated here in full to
+keep this file independent) -/
+abbrev CrLfOnly (s : Src) : Prop := ∀ j : Nat, s[j]? = some (13 : UInt8) → s[j + 1]? = some (10 : UInt8)
+
+theorem CrLfOnly.of_noCR {s : Src} (h : ∀ j : Nat, s[j]? ≠ some (13 : UInt8)) : CrLfOnly s :=
+  fun j hj => absurd hj (h j)
 
 theorem isEol_false_ne10 {s : Src} {p : Nat} (h : isEol s p = false) : s[p]? ≠ some 10 := by
   intro h10
   simp [isEol, h10] at h
 
-theorem commentLineEndGo_noeol (s : Src) : ∀ (n p j : Nat), p ≤ j → j < commentLineEndGo s n p → s[j]? ≠ some 10 := by
+theorem isEol_false_ne13 {s : Src} (hcr : CrLfOnly s) {p : Nat} (h : isEol s p = false) : s[p]? ≠ some 13 := by
+  intro h13
+  have := hcr p h13
+  simp [isEol, h13, this] at h
+
+theorem commentLineEndGo_noeol (s : Src) : ∀ (n p j : Nat), p ≤ j → j < commentLineEndGo s n p → isEol s j = false := by
   intro n
   induction n with
   | zero => intro p j h1 h2; simp [commentLineEndGo] at h2; omega
@@ -32,7 +45,7 @@ theorem commentLineEndGo_noeol (s : Src) : ∀ (n p j : Nat), p ≤ j → j < co
     · omega
     · rename_i he
       by_cases hj : j = p
-      · subst hj; exact isEol_false_ne10 (by simpa using he)
+      · subst hj; simpa using he
       · exact ih (p + 1) j (by omega) h2
 
 theorem getCommentLine_ok {s : Src} {p : Nat} {line : Span} {q : Nat} (h : getCommentLine s p = .ok line q) :
@@ -46,14 +59,14 @@ theorem getCommentLine_ok {s : Src} {p : Nat} {line : Span} {q : Nat} (h : getCo
     exact commentLineEndGo_noeol s _ p j h1 h2
   · cases h
 
-theorem commentLineOK_of {s : Src} (hcr : ∀ j : Nat, s[j]? ≠ some (13 : UInt8)) {sp : Span} (h : LineOK s sp) :
+theorem commentLineOK_of {s : Src} (hcr : CrLfOnly s) {sp : Span} (h : LineOK s sp) :
     commentLineOK (spanBytes s sp) = true := by
   obtain ⟨a, b⟩ := sp
   unfold commentLineOK
   apply spanBytes_all
   intro j h1 h2 c hc
-  have h10 := h j h1 h2
-  have h13 := hcr j
+  have h10 := isEol_false_ne10 (h j h1 h2)
+  have h13 := isEol_false_ne13 hcr (h j h1 h2)
   rw [hc] at h10 h13
   simp only [Bool.and_eq_true, bne_iff_ne, ne_eq]
   exact ⟨fun e => h10 (by rw [e]), fun e => h13 (by rw [e])⟩
@@ -166,7 +179,7 @@ theorem getCommentGo_ne (s : Src) : ∀ (n level : Nat) (content : List Span) (p
 /-- a comment of the class -/
 def CmtOK (s : Src) (c : List Span) : Prop := rtComment (c.map (spanBytes s)) = true
 
-theorem cmtOK_of {s : Src} (hcr : ∀ j : Nat, s[j]? ≠ some (13 : UInt8)) {c : List Span} (hne : c ≠ [])
+theorem cmtOK_of {s : Src} (hcr : CrLfOnly s) {c : List Span} (hne : c ≠ [])
     (hl : ∀ x ∈ c, LineOK s x) : CmtOK s c := by
   simp only [CmtOK, rtComment, Bool.and_eq_true, Bool.not_eq_true', List.isEmpty_eq_false_iff, List.all_eq_true,
     List.mem_map, ne_eq, List.map_eq_nil_iff]
@@ -185,7 +198,7 @@ def cEntry (s : Src) : Entry Span → Prop
   | .resourceComment c => CmtOK s c
   | .junk _ => True
 
-theorem getEntry_c {s : Src} (hcr : ∀ j : Nat, s[j]? ≠ some (13 : UInt8)) (fuel p : Nat) :
+theorem getEntry_c {s : Src} (hcr : CrLfOnly s) (fuel p : Nat) :
     Post (getEntry s fuel p) (cEntry s) := by
   intro a q h
   simp only [getEntry] at h
@@ -220,7 +233,7 @@ theorem getEntry_c {s : Src} (hcr : ∀ j : Nat, s[j]? ≠ some (13 : UInt8)) (f
     rw [getMessage_comment_none s fuel _ _ m _ hm] at hc
     cases hc
 
-theorem parseLoop_c {s : Src} (hcr : ∀ j : Nat, s[j]? ≠ some (13 : UInt8)) (fuel : Nat) :
+theorem parseLoop_c {s : Src} (hcr : CrLfOnly s) (fuel : Nat) :
     ∀ (n : Nat) (body : List (Entry Span)) (errors : List PErr)
     (lc : Option (List Span)) (cnt p : Nat) (t : List (Entry Span)) (errs : List PErr),
     (∀ e ∈ body, cEntry s e) → OptCmtOK s lc → parseLoop s fuel n body errors lc cnt p = .done (t, errs) →
@@ -299,13 +312,21 @@ theorem parseLoop_c {s : Src} (hcr : ∀ j : Nat, s[j]? ≠ some (13 : UInt8)) (
       · cases h; exact hsn _ _ hbody (hlc _ rfl)
       · cases h; exact hbody
 
+/-- **The comments the parser produces are of the class** — for sources in which every `\r` is followed by
+`\n`: every stand-alone comment (`#`, `##`, `###`) of the tree returned by `parse` and every comment attached to
+a message or a term is non-empty and none of its lines contains a line break (a comment line ends at the first
+`\n` or `\r\n`). -/
+theorem parse_comments_cr (s : Src) (hcr : ∀ j : Nat, s[j]? = some (13 : UInt8) → s[j + 1]? = some (10 : UInt8))
+    (t : Resource Span) (errs : List PErr) (h : parse s = .done (t, errs)) : ∀ e ∈ t, cEntry s e := by
+  unfold parse at h
+  exact parseLoop_c hcr _ _ [] [] none 0 _ t errs (by simp) (fun c hc => by cases hc) h
+
 /-- **The comments the parser produces are of the class.**  For a source without the byte 13: every
 stand-alone comment (`#`, `##`, `###`) of the tree returned by `parse` and every comment attached to a
 message or a term is non-empty and none of its lines contains a line break. -/
 theorem parse_comments (s : Src) (hcr : ∀ j : Nat, s[j]? ≠ some (13 : UInt8))
-    (t : Resource Span) (errs : List PErr) (h : parse s = .done (t, errs)) : ∀ e ∈ t, cEntry s e := by
-  unfold parse at h
-  exact parseLoop_c hcr _ _ [] [] none 0 _ t errs (by simp) (fun c hc => by cases hc) h
+    (t : Resource Span) (errs : List PErr) (h : parse s = .done (t, errs)) : ∀ e ∈ t, cEntry s e :=
+  parse_comments_cr s (CrLfOnly.of_noCR hcr) t errs h
 
 /-- the same, entry kind by entry kind -/
 theorem parse_comments' (s : Src) (hcr : ∀ j : Nat, s[j]? ≠ some (13 : UInt8))
